@@ -44,7 +44,7 @@ class FakeItem:
 
 def ident_func():
     """IDENT as the implementation writes it wherever the standard prescribes IDENT (through write_struct)."""
-    return lambda s: sw.write_struct.__wrapped__(RC.IDENT, s)
+    return lambda s: sw.write_struct(RC.IDENT, s)
 
 
 INT_CODES = {'U1': (RC.USHORT, 0, 255), 'U2': (RC.UNORM, 0, 65535), 'U4': (RC.ULONG, 0, 2**32 - 1),
@@ -61,7 +61,7 @@ def gen_cases(tier, R):
         [R.randrange(0, 2**30) for _ in range(3000 if thorough else 500)]
     for v in vals:
         exp = ('valid', 'uvari', str(v)) if 0 <= v < 2**30 else ('invalid',)
-        yield ('uvari', f'uvari {v}', (lambda v=v: sw.write_struct.__wrapped__(RC.UVARI, v)), exp, v)
+        yield ('uvari', f'uvari {v}', (lambda v=v: sw.write_struct(RC.UVARI, v)), exp, v)
     # --- fixed-width integers
     for kind, (rc, lo, hi) in INT_CODES.items():
         k = int(kind[1])
@@ -73,11 +73,11 @@ def gen_cases(tier, R):
             vs.add(R.randrange(lo - 10, hi + 10))
         for v in sorted(vs):
             exp = ('valid', kind, str(v)) if lo <= v <= hi else ('invalid',)
-            yield (kind, f'{kind[0]} {k} {v}', (lambda v=v, rc=rc: sw.write_struct.__wrapped__(rc, v)), exp, v)
+            yield (kind, f'{kind[0]} {k} {v}', (lambda v=v, rc=rc: sw.write_struct(rc, v)), exp, v)
     # --- STATUS
     for v in (-1, 0, 1, 2, 255, 256):
         exp = ('valid', 'status', str(v)) if v in (0, 1) else ('invalid',)
-        yield ('status', f'status {v}', (lambda v=v: sw.write_struct.__wrapped__(RC.STATUS, v)), exp, v)
+        yield ('status', f'status {v}', (lambda v=v: sw.write_struct(RC.STATUS, v)), exp, v)
     # --- IDENT / ASCII text
     alphabet = 'ABCXYZ-_09 azé\x7f\x80Ā'
     def mk(n, ascii_only):
@@ -89,7 +89,7 @@ def gen_cases(tier, R):
             s = mk(n, ascii_only)
             ok = s.isascii() and n <= 255
             exp = ('valid', 'ident', hexs(s.encode('ascii'))) if ok else ('invalid',)
-            yield ('ident', f'ident {cps(s)}', (lambda s=s: sw.write_struct.__wrapped__(RC.IDENT, s)), exp, s)
+            yield ('ident', f'ident {cps(s)}', (lambda s=s: sw.write_struct(RC.IDENT, s)), exp, s)
     alens = list(range(0, 200, 9)) + [127, 128, 129, 16383, 16384, 16385, 20000] + \
         ([30000, 70000] if thorough else [])
     for n in alens:
@@ -97,7 +97,7 @@ def gen_cases(tier, R):
             s = mk(n, ascii_only)
             ok = s.isascii()
             exp = ('valid', 'ascii', hexs(s.encode('ascii'))) if ok else ('invalid',)
-            yield ('ascii', f'ascii {cps(s)}', (lambda s=s: sw.write_struct.__wrapped__(RC.ASCII, s)), exp, s)
+            yield ('ascii', f'ascii {cps(s)}', (lambda s=s: sw.write_struct(RC.ASCII, s)), exp, s)
     # --- DTIME (UTC-aware datetimes; the instant is computed independently from the timestamp)
     utc = dtm.timezone.utc
     dts = []
@@ -127,7 +127,7 @@ def gen_cases(tier, R):
         exp = ('valid', 'dtime', f'{naive.year - 1900},2,{naive.month},{naive.day},{naive.hour},{naive.minute},'
                                  f'{naive.second},{ms}') if ok else ('invalid',)
         yield ('dtime', f'dtime {naive.year} {naive.month} {naive.day} {naive.hour} {naive.minute} {naive.second} {us}',
-               (lambda t=t: sw.write_struct.__wrapped__(RC.DTIME, t)), exp, t.isoformat())
+               (lambda t=t: sw.write_struct(RC.DTIME, t)), exp, t.isoformat())
     # --- OBNAME / OBJREF
     for _ in range(3000 if thorough else 500):
         o = R.choice([0, 1, 127, 128, 16383, 16384, 2**30 - 1, 2**30, -1, R.randrange(0, 2**30)])
@@ -137,26 +137,26 @@ def gen_cases(tier, R):
         ok = 0 <= o < 2**30 and 0 <= c <= 255 and n.isascii() and len(n) <= 255
         exp = ('valid', 'obname', f'{o},{c},{hexs(n.encode("ascii", "replace"))}') if ok else ('invalid',)
         yield ('obname', f'obname {o} {c} {cps(n)}',
-               (lambda o=o, c=c, n=n: sw.write_struct.__wrapped__(RC.OBNAME, FakeItem(o, c, n))), exp, [o, c, n])
+               (lambda o=o, c=c, n=n: sw.write_struct(RC.OBNAME, FakeItem(o, c, n))), exp, [o, c, n])
         ok2 = ok and st.isascii() and len(st) <= 255
         exp2 = ('valid', 'objref', f'{hexs(st.encode("ascii", "replace"))},{o},{c},{hexs(n.encode("ascii", "replace"))}') \
             if ok2 else ('invalid',)
         yield ('objref', f'objref {cps(st)} {o} {c} {cps(n)}',
-               (lambda o=o, c=c, n=n, st=st: sw.write_struct.__wrapped__(RC.OBJREF, FakeItem(o, c, n, st))), exp2,
+               (lambda o=o, c=c, n=n, st=st: sw.write_struct(RC.OBJREF, FakeItem(o, c, n, st))), exp2,
                [st, o, c, n])
     # --- floats: big-endian image of the IEEE bit pattern
     specials64 = [0x0, 0x8000000000000000, 0x7ff0000000000000, 0xfff0000000000000, 0x7ff8000000000001,
                   0x7ff4000000000000, 0x1, 0x000fffffffffffff, 0x7fefffffffffffff]
     for b in specials64 + [R.getrandbits(64) for _ in range(1500 if thorough else 300)]:
         x = np.array([b], dtype=np.uint64).view(np.float64)[0]
-        yield ('f64', f'bits 8 {b}', (lambda x=x: sw.write_struct.__wrapped__(RC.FDOUBL, float(x))),
+        yield ('f64', f'bits 8 {b}', (lambda x=x: sw.write_struct(RC.FDOUBL, float(x))),
                ('valid', 'bits8', str(float_bits64(float(x)))), hex(b))
     for b in [0, 0x80000000, 0x7f800000, 0xff800000, 0x7fc00001, 1, 0x7f7fffff] + \
             [R.getrandbits(32) for _ in range(1500 if thorough else 300)]:
         x = np.array([b], dtype=np.uint32).view(np.float32)[0]
         if np.isnan(x):
             continue   # struct.pack('>f', nan) does not promise payload preservation for a Python float
-        yield ('f32', f'bits 4 {b}', (lambda x=x: sw.write_struct.__wrapped__(RC.FSINGL, float(x))),
+        yield ('f32', f'bits 4 {b}', (lambda x=x: sw.write_struct(RC.FSINGL, float(x))),
                ('valid', 'bits4', str(b)), hex(b))
 
 
@@ -187,7 +187,7 @@ def run(tier):
         chk.case(kind, nontrivial_key=req, sample={'request': req[:120], 'impl': irep[:80]})
         chk.count(f'{kind}:{"ok" if st == "ok" else "err"}')
         if mnorm is not None and mnorm != irep:
-            chk.disagree(kind, {'request': req[:400], 'value': repr(val)[:200]}, irep[:400], mrep[:400])
+            chk.disagree(kind, {'request': req[:400], 'value': repr(val)[:200]}, irep, mrep)
         # oracle on the implementation's own output
         if exp[0] == 'invalid':
             if st == 'ok':
